@@ -474,3 +474,103 @@ def replay(pid, d):
         print('nothing to replay in', d); return 2
     except Infra as e:
         print('INFRA-ERROR', e); return 2
+
+
+# ---------------------------------------------------------------------------------- command-line tools
+def build_full(flavour='rel'):
+    rc, out = sh([ROOT + '/tools/build_full.sh', flavour], timeout=900)
+    if rc != 0:
+        raise Infra('full build %s failed: %s' % (flavour, out[-2000:]))
+
+
+def run_tool_shard(args):
+    flavour, shard_dir, scen = args
+    os.makedirs(shard_dir, exist_ok=True)
+    with open(shard_dir + '/scenarios.json', 'w') as f:
+        json.dump(scen, f)
+    with open(shard_dir + '/flavour', 'w') as f:
+        f.write(flavour + '\nTrace\n\n')
+    trace = shard_dir + '/trace.ndjson'
+    rc, out = sh(['python3', ROOT + '/tools/toolrun.py', flavour, shard_dir + '/scenarios.json', trace], timeout=1200)
+    if rc != 0:
+        return {'dir': shard_dir, 'status': 'infra', 'detail': 'toolrun failed: ' + out[-800:]}
+    r = validate_trace(trace, shard_dir, 'Trace')
+    r['drv_rc'] = 0
+    return r
+
+
+def _tool_tv(self, scenarios, flavour, name, per_shard=40, key_fn=None):
+    if 'tools:' + flavour not in self.cov['flavours']:
+        self.cov['flavours'].append('tools:' + flavour)
+    build_full(flavour)
+    base = '%s/run/%s_%s_%s' % (BUILD, self.pid, name, flavour)
+    shutil.rmtree(base, ignore_errors=True)
+    jobs = [(flavour, '%s/s%03d' % (base, i // per_shard), scenarios[i:i + per_shard]) for i in range(0, len(scenarios), per_shard)]
+    t0 = time.time()
+    with cf.ThreadPoolExecutor(max_workers=NPROC) as ex:
+        results = list(ex.map(run_tool_shard, jobs))
+    for r in results:
+        if r['status'] == 'infra':
+            raise Infra(r.get('detail', 'infra'))
+    bad = [r for r in results if r['status'] != 'ok']
+    confirmed = []
+    for r in bad[:8]:
+        scen = json.load(open(r['dir'] + '/scenarios.json'))
+        r2 = run_tool_shard((flavour, r['dir'] + '_rerun', scen))
+        if r2['status'] == 'infra':
+            raise Infra(r2.get('detail'))
+        if r2['status'] == 'ok':
+            raise Infra('non-reproducible rejection in %s' % r['dir'])
+        confirmed.append(r2)
+    self.cov['traces_validated_against_impl'] += len([r for r in results if r['status'] == 'ok'])
+    self.cov['evaluations'] += sum(r.get('events', 0) for r in results)
+    self.cov.setdefault('tv_runs', []).append({'name': name, 'flavour': 'tools:' + flavour, 'shards': len(results), 'cases': len(scenarios), 'wall_s': round(time.time() - t0, 1)})
+    for r in confirmed:
+        rd = self.replay_dir(os.path.basename(r['dir']))
+        for fn in ('scenarios.json', 'trace.ndjson', 'tlc.out', 'flavour'):
+            if os.path.exists(r['dir'] + '/' + fn):
+                shutil.copy(r['dir'] + '/' + fn, rd + '/' + fn)
+        ev = r.get('event') or ''
+        key = key_fn(ev) if key_fn else tool_key(ev)
+        self.violation(key, '%s [tools %s] event: %s' % (r.get('detail'), flavour, ev[:400]), rd)
+    if results and len(self.cov['samples']) < 6:
+        try:
+            for i, line in enumerate(open(results[0]['dir'] + '/trace.ndjson')):
+                if i < 2: self.cov['samples'].append(json.loads(line) if len(line) < 3000 else line[:600])
+        except Exception:
+            pass
+    return results
+
+
+def tool_key(ev):
+    try:
+        d = json.loads(ev)
+    except Exception:
+        return 'tool'
+    k = d.get('e', 'tool')
+    if 'what' in d: k += ':' + d['what']
+    if d.get('fault', {}).get('op', 'none') != 'none': k += ':' + d['fault']['op'] + ':' + d['fault']['kind']
+    if 'tag' in d and d['tag']: k += ':' + d['tag']
+    return k
+
+
+Check.tv_tools = _tool_tv
+
+_old_replay = replay
+
+
+def replay(pid, d):
+    if os.path.exists(d + '/scenarios.json'):
+        try:
+            fl = open(d + '/flavour').read().split('\n')[0] if os.path.exists(d + '/flavour') else 'rel'
+            build_full(fl)
+            r = run_tool_shard((fl, BUILD + '/run/replay_%d' % os.getpid(), json.load(open(d + '/scenarios.json'))))
+            print(json.dumps({k: v for k, v in r.items()}, indent=1)[:3000])
+            if r['status'] == 'ok':
+                print('replay: trace accepted'); return 0
+            if r['status'] == 'infra':
+                print('INFRA-ERROR', r.get('detail')); return 2
+            print('VIOLATION property=%s replay=%s' % (pid, d)); return 1
+        except Infra as e:
+            print('INFRA-ERROR', e); return 2
+    return _old_replay(pid, d)
